@@ -1071,6 +1071,7 @@ impl<T: Config> P2PSession<T> {
                     .try_into()
                     .expect("frames ahead is negative despite being positive."),
             });
+            self.trim_event_queue();
         }
     }
 
@@ -1163,7 +1164,11 @@ impl<T: Config> P2PSession<T> {
             }
         }
 
-        // check event queue size and discard oldest events if too big
+        self.trim_event_queue();
+    }
+
+    /// Checks the event queue size and discards the oldest events if it is too big.
+    fn trim_event_queue(&mut self) {
         while self.event_queue.len() > MAX_EVENT_QUEUE_SIZE {
             self.event_queue.pop_front();
         }
@@ -1199,6 +1204,7 @@ impl<T: Config> P2PSession<T> {
                         remote.pending_checksums.remove_entry(&frame);
                     }
                 }
+                self.trim_event_queue();
             }
             DesyncDetection::Off => (),
         }
